@@ -36,6 +36,20 @@ var checks = map[string]*checkCfg{
 		TimeMeasure: "operations executed (no clock exists in this surface)",
 		StateRule:   "distinct (previous op kind > op kind) pairs, cache sizes, face setting modes at query time, wrapper line/run count buckets",
 	},
+	"C14": {
+		Property: "C14", Engine: "fontmapsim", Level: "exploration",
+		Runs: map[string]int{"quick": 8000, "thorough": 300000}, Chunk: 20, RunTimeoutS: 120,
+		Rule: "one case = one seeded history (10-120 operations) of AddFace/AddFont/UseSystemFonts/SetQuery/SetScript/SetRuneCacheSize/ResolveFace/ResolveFaceForLang on one fontscan.FontMap over a database of corpus fonts with seeded family names (shared families with different aspects, generic families, colliding concatenations) and aspects; every ResolveFace is compared with an uncached replica rebuilt from the add-history (M1) and with an executable model of the documented priority (M2). distinct = distinct hash of the generated case; non-trivial = at least one of: repeated lookup with the cache enabled, lookup after other lookups, eviction, add after lookups, system fonts used, file fault fired.",
+		Assumptions: []string{
+			"retainsBestMatches (aspect narrowing, property C15) and the content of the family-substitution step are taken from the library (read through verif-tagged hooks); their position in the priority order is modelled independently",
+			"when no entry covers the rune and system fonts are in use, any database member is accepted (the property allows an arbitrary face; which one depends on lazy loading)",
+			"fault family (system font files broken after indexing) is checked for totality only",
+		},
+		Real:        []string{"fontscan.FontMap (ResolveFace, buildCandidates, runeLRU, AddFace, AddFont, UseSystemFonts)", "fontscan.initSystemFonts / refreshSystemFontsIndex over a simulator-owned directory", "fontscan match.go / substitutions", "font parsing"},
+		Stub:        []string{"system font directories (hook VerifFontDirs -> scratch tmpfs directory)", "logger (no-op)"},
+		TimeMeasure: "operations executed (no clock in this surface)",
+		StateRule:   "distinct (answering step 1-5, database size bucket, #families in query, script set?, repeated lookup?) tuples and cache sizes",
+	},
 }
 
 // order in which `check all` runs
